@@ -497,7 +497,8 @@ func isCovariant(schema *Schema, required *Type, actual *Type) bool {
 			return true
 		}
 		for _, pt := range schema.PossibleTypes[required.NamedType] {
-			if pt.Name == actual.NamedType {
+			// an undefined union member or implementer is recorded as nil until it is rejected
+			if pt != nil && pt.Name == actual.NamedType {
 				return true
 			}
 		}
